@@ -921,8 +921,10 @@ pub fn eval_condition(value: &str, context: &impl ContextView) -> Result<bool> {
                 "Expected closing '{EXPR_END}': '{value}'"
             )))?;
     }
-    eval_str(value, context)?
-        .parse::<f32>()
+    // (the value itself is tested, not its 3-decimal display form: 0.0004 is not zero)
+    tokenize(value)
+        .and_then(|tokens| evaluate(tokens, context))?
+        .one_number()
         .map(|v| v != 0.)
         .map_err(|_| SvgdxError::ParseError(format!("Invalid condition: '{value}'")))
 }
